@@ -106,6 +106,7 @@ structure MState where
   accepted : List (Nat × Nat) := []      -- (cid, data) accepted by the client gate
   refWl : List (Nat × List Nat) := []    -- per peer: the reference fold of its wantlist messages (C06 / C07)
   owed : List (Nat × Nat) := []          -- (peer, cid): new wants whose blockstore lookup has not started yet
+  stored : List (Nat × List Nat) := []   -- cid stored by the node's own fetch since the last drain, peers waiting for it then
 
 def rm (l ks : List Nat) : List Nat := l.filter (· ∉ ks)
 def add (l ks : List Nat) : List Nat := l ++ ks.filter (· ∉ l)
@@ -253,7 +254,8 @@ def stepMon (st : MState) (op : String) (out : String) : MState × List Viol :=
             | none => (st, [])
           | ["putok"] =>
             match lookup st.puts seq with
-            | some bs => ({ st with avail := bs ++ st.avail }, [])
+            | some bs => ({ st with avail := bs ++ st.avail,
+                                    stored := st.stored ++ bs.map (fun kd => (kd.1, (lookup prev.swt kd.1).getD [])) }, [])
             | none => (st, [])
           | _ => (st, [])
         | ["newblocks", b] =>
@@ -408,9 +410,14 @@ def stepMon (st : MState) (op : String) (out : String) : MState × List Viol :=
           let vowed := if snap.stasks == 0 then owed.map fun pk =>
               ("C06", s!"peer {pk.1}'s new want for cid {pk.2} is recorded but no blockstore lookup was ever started for it (no lookup task left)")
             else []
+          -- C06: a block the node fetched for itself while peers waited for it is passed on by the next poll
+          let vstored := st.stored.flatMap fun (k, ps) => ps.filterMap fun p =>
+            if ((lookup snap.swt k).getD []).contains p && !(blks.any (fun pb => pb.1 == p && pb.2.any (·.1 == k % 7))) then
+              some ("C06", s!"cid {k} was stored by the node's own fetch while peer {p} waited for it, yet after the next poll the peer still waits and nothing was sent")
+            else none
           ({ st with events := events, calls := calls ++ st.calls, puts := puts ++ st.puts, ghosts := gs, refWl := refWl,
-                     owed := if snap.stasks == 0 then [] else owed },
-           v03 ++ v01 ++ vsend ++ vdup ++ v07 ++ v06 ++ vowed)
+                     owed := if snap.stasks == 0 then [] else owed, stored := [] },
+           v03 ++ v01 ++ vsend ++ vdup ++ v07 ++ v06 ++ vowed ++ vstored)
         | _ => (st, [])
       let st := { st with prev := snap }
       (st, v ++ checkState st snap)
